@@ -153,7 +153,7 @@ fn build_decision_service_evaluator(
             // evaluate input decisions and store the results in separate context
             let mut input_decisions_results = FeelContext::default();
             input_decisions.iter().for_each(|id| {
-              decision_evaluator.evaluate(id, input_data, model_evaluator, &mut input_decisions_results);
+              decision_evaluator.evaluate(id, input_data, &FeelContext::default(), model_evaluator, &mut input_decisions_results);
             });
             // now evaluate input data for encapsulated and output decisions and store them in separate context
             let mut evaluated_input_data = FeelContext::default();
@@ -169,6 +169,8 @@ fn build_decision_service_evaluator(
               let (name, value) = evaluator(&input_data_values, &item_definition_evaluator);
               evaluated_input_data.set_entry(&name, value);
             }
+            // only the values of the input decisions replace required decisions inside this decision service
+            let input_decision_values = evaluated_input_data.clone();
             // evaluate required inputs (from required input data references)
             input_data_references.iter().for_each(|input_data_id| {
               if let Some((name, value)) = input_data_evaluator.evaluate(input_data_id, &input_data_values, &item_definition_evaluator) {
@@ -180,12 +182,12 @@ fn build_decision_service_evaluator(
             // acquire decision evaluator
             // evaluate encapsulated decisions
             encapsulated_decisions.iter().for_each(|id| {
-              decision_evaluator.evaluate(id, &evaluated_input_data, model_evaluator, &mut evaluated_ctx);
+              decision_evaluator.evaluate(id, &evaluated_input_data, &input_decision_values, model_evaluator, &mut evaluated_ctx);
             });
             // evaluate output decisions
             let mut output_names = vec![];
             output_decisions.iter().for_each(|id| {
-              if let Some(output_name) = decision_evaluator.evaluate(id, &evaluated_input_data, model_evaluator, &mut evaluated_ctx) {
+              if let Some(output_name) = decision_evaluator.evaluate(id, &evaluated_input_data, &input_decision_values, model_evaluator, &mut evaluated_ctx) {
                 output_names.push(output_name);
               }
             });
